@@ -229,6 +229,14 @@ class Function(object):
             for s in b.succ:
                 if s is not None:
                     self.blocks[s].preds.append(b.id)
+        # falling off the end of a function is a return too: make it an explicit event so that
+        # exit rules see every way out
+        for b in self.blocks.values():
+            if b.id != self.exit and self.exit in b.succ and not b.noret:
+                if not b.ev or b.ev[-1]["e"] != "ret":
+                    if not (b.term is not None and b.term.get("k") == "ReturnStmt"):
+                        b.ev.append({"e": "ret", "l": "%s:%d:1" % (self.file, self.endline or self.line),
+                                     "synthetic": True})
         self._events = None
 
     def __repr__(self):
